@@ -50,4 +50,12 @@ def f32Ops : LerpOps Float32 where
   mul := (· * ·)
   roundSat := fun lo hi x => clamp lo hi (f32ToInt x.round)
 
+/-! ### `impl Lerp for f32 / f64`: `self + (other - self) * scalar as $f`
+
+IEEE arithmetic is total, so is the model: there is no error branch (NaN and the infinities are
+ordinary values). The driver compares bit patterns (every NaN printed as `nan`). -/
+
+def lerpF32 (a b : Float32) (t : Float32) : Float32 := a + (b - a) * t
+def lerpF64 (a b : Float) (t : Float32) : Float := a + (b - a) * t.toFloat
+
 end SycVerif.Lerp
